@@ -229,8 +229,49 @@ fn body(spec: C14Spec, pl: Arc<Plan>, dir: String, out: Arc<Mutex<Out>>) {
 }
 
 pub fn explore(spec: &C14Spec, vios: &mut Vec<Violation>, stats: &mut SchedStats, deadline: Instant) -> Result<(), Machinery> {
+    explore_with(spec, vios, stats, deadline, Dfs::new(0, FaultPolicy::None))
+}
+
+fn schedule_from_json(r: &serde_json::Value) -> Vec<(usize, String)> {
+    r["extra"]["schedule"]
+        .as_array()
+        .or_else(|| r["schedule"].as_array())
+        .map(|a| a.iter().filter_map(|x| x.as_str()).filter_map(|s| s.split_once(':').map(|(t, l)| (t.parse().unwrap_or(0), l.to_string()))).collect())
+        .unwrap_or_default()
+}
+
+/// Re-executes one recorded case.
+pub fn replay(r: &serde_json::Value) -> i32 {
+    let spec = C14Spec {
+        prop: "C14".to_string(),
+        phase1: r["phase1"].as_array().map(|a| a.iter().map(crate::schedx::sop_from_json).collect()).unwrap_or_default(),
+        cfg: crate::seqx::cfg_from_json(&r["cfg"]),
+        max_executions: 1,
+    };
+    let mut vios = vec![];
+    let mut stats = SchedStats::default();
+    let dfs = Dfs::replaying(schedule_from_json(r), 0, FaultPolicy::None);
+    match explore_with(&spec, &mut vios, &mut stats, Instant::now() + std::time::Duration::from_secs(120), dfs) {
+        Err(Machinery(m)) => {
+            println!("REPLAY property=C14 could not be replayed on this tree: {}", m);
+            2
+        }
+        Ok(()) => {
+            if vios.is_empty() {
+                println!("REPLAY property=C14 held for this case ({} steps)", stats.steps);
+                0
+            } else {
+                for v in vios.iter().take(5) {
+                    println!("REPLAY property=C14 VIOLATION key={} what={}", v.key, v.what);
+                }
+                1
+            }
+        }
+    }
+}
+
+fn explore_with(spec: &C14Spec, vios: &mut Vec<Violation>, stats: &mut SchedStats, deadline: Instant, mut dfs: Dfs) -> Result<(), Machinery> {
     let pl = Arc::new(plan(&spec.phase1, &spec.cfg));
-    let mut dfs = Dfs::new(0, FaultPolicy::None);
     stats.histories += 1;
     loop {
         dfs.begin_execution();
